@@ -393,6 +393,8 @@ class ProtocolContext:
         """Wrapper to send a command with retries, until success or exception."""
 
         async def send_fnc_wrapper(cmd: Command) -> None:
+            if cmd is not self._cmd:  # e.g. sender's timeout expired in the meantime
+                return
             try:  # the wrapped function (actual Tx.write)
                 await self._send_fnc(cmd)
             except exc.TransportError as err:
